@@ -74,7 +74,8 @@ theorem C16_worksteal_no_double_assignment {s s' : WorkSteal.State τ} {e e' : E
 theorem C16_run_command_is_pool_prefix {v v' : View} {e e' : Env} {n k : Nat} {g : Bool}
     (h : apply v e (.send n k g) = some (v', e')) :
     ∃ book, AList.lookup v.books n = some book ∧ v.pool.take k ≠ [] ∧
-      e'.outs = e.outs ++ [.run n (v.pool.take k)] ∧ v'.pool = v.pool.drop k ∧
+      (if (e.flags.get n).broken then e' = e        -- the worker is already gone: nothing reaches the wire
+       else e'.outs = e.outs ++ [.run n (v.pool.take k)]) ∧ v'.pool = v.pool.drop k ∧
       AList.lookup v'.books n = some (book ++ v.pool.take k) := by
   simp only [apply] at h
   cases hb : AList.lookup v.books n with
@@ -86,17 +87,15 @@ theorem C16_run_command_is_pool_prefix {v v' : View} {e e' : Env} {n k : Nat} {g
     · rename_i hne
       split at h
       · simp at h
-      · split at h
-        · simp at h
-        · simp at h
-          obtain ⟨rfl, rfl⟩ := h
-          exact ⟨book, rfl, by simpa using hne, rfl, rfl, by simp⟩
+      · simp only [Option.some.injEq, Prod.mk.injEq] at h
+        obtain ⟨rfl, rfl⟩ := h
+        exact ⟨book, rfl, by simpa using hne, by split <;> rfl, rfl, by simp⟩
 
 /-- a steal request names tests of the victim's book only (C07_request_suffix gives the exact shape) -/
 theorem C16_steal_in_book {v v' : View} {e e' : Env} {n k : Nat}
     (h : apply v e (.steal n k) = some (v', e')) :
     ∃ book, AList.lookup v.books n = some book ∧
-      e'.outs = e.outs ++ [.steal n (book.drop (book.length - k))] ∧
+      (if (e.flags.get n).broken then e' = e else e'.outs = e.outs ++ [.steal n (book.drop (book.length - k))]) ∧
       ∀ i ∈ book.drop (book.length - k), i ∈ book := by
   simp only [apply] at h
   cases hb : AList.lookup v.books n with
@@ -109,9 +108,9 @@ theorem C16_steal_in_book {v v' : View} {e e' : Env} {n k : Nat}
       · simp at h
       · split at h
         · simp at h
-        · simp at h
+        · simp only [Option.some.injEq, Prod.mk.injEq] at h
           obtain ⟨_, rfl⟩ := h
-          exact ⟨book, rfl, rfl, fun i hi => List.mem_of_mem_drop hi⟩
+          exact ⟨book, rfl, by split <;> rfl, fun i hi => List.mem_of_mem_drop hi⟩
 
 /-! ### controller level (worksteal): every sequence of controller events -/
 
